@@ -9,7 +9,7 @@ from vflib import ROOT, CACHE
 
 LAYER, WS, PKG = "exp", "harness_exp", "hexp"
 CLASS_IDX = {"clash": 0, "fk_cycle": 1, "datetime": 2, "slice_order": 3, "fk_closed": 4,
-             "py_ident": 5, "py_dup": 6, "py_empty_import": 7, "py_text": 8, "py_sqlmodel_text": 9, "rust_ident": 10}
+             "py_ident": 5, "py_dup": 6, "py_empty_import": 7, "py_text": 8, "py_sqlmodel_text": 9, "rust_ident": 10, "py_sqlmodel_float_word": 11}
 REPO_CRATES = ["core", "planner", "query", "exporter", "naming", "config", "loader", "cli"]
 
 
@@ -50,6 +50,7 @@ def load_findings(prop):
 
 
 # ------------------------------------------------------------------------------------------ preparation
+@vflib.serialized("run_exp")
 def prepare(tier, seed):
     sz = sizes(tier)
     rc, out, binp = vflib.build_harness(PKG, ws=WS)
